@@ -378,8 +378,15 @@ func (ex *Exec) typeFacts(v *Value) *Term {
 			facts = append(facts, ex.geZero(t))
 		case kStrLen:
 			facts = append(facts, ex.geZero(t))
+			if t.Sort.IsBV() {
+				// lengths are bounded by memory: keeps length arithmetic from wrapping
+				facts = append(facts, ex.tb.BVCmp("bvsle", t, ex.tb.BV(new(big.Int).Lsh(big.NewInt(1), 40), t.Sort.BVWidth())))
+			}
 		case kSliceLen:
 			facts = append(facts, ex.geZero(t), ex.le(t, v.C[i+1]))
+			if t.Sort.IsBV() {
+				facts = append(facts, ex.tb.BVCmp("bvsle", v.C[i+1], ex.tb.BV(new(big.Int).Lsh(big.NewInt(1), 40), t.Sort.BVWidth())))
+			}
 		case kRef, kSliceRef:
 			facts = append(facts, ex.geZero(t))
 		case kIfaceTag:
